@@ -23,12 +23,21 @@ pub fn run(case: &Sx) -> Sx {
         Ok(d) => d,
         Err(_) => return Sx::L(vec![Sx::s("PANIC")]),
     };
-    let stripped = if dec.len() > 2 && dec.starts_with('\u{feff}') { dec[3..].to_string() } else { dec.clone() };
+    // the text that load() hands to the tokenizer: read back through the real loader::load
+    let dir = std::path::Path::new("/verif/build/tmp");
+    std::fs::create_dir_all(dir).unwrap();
+    let tpath = dir.join(format!("c17t_{}.a2l", std::process::id()));
+    std::fs::write(&tpath, &bytes).unwrap();
+    let loaded = catch_unwind(AssertUnwindSafe(|| a2lfile::verif_hooks::load_text(&tpath)));
+    let _ = std::fs::remove_file(&tpath);
+    let stripped = match loaded {
+        Ok(Some(t)) => t,
+        Ok(None) => return Sx::L(vec![Sx::s("LOADFAIL")]),
+        Err(_) => return Sx::L(vec![Sx::s("PANIC")]),
+    };
     let mut agree = 1;
     let mut note = String::new();
     if check_load {
-        let dir = std::path::Path::new("/verif/build/tmp");
-        std::fs::create_dir_all(dir).unwrap();
         let path = dir.join(format!("c17_{}.a2l", std::process::id()));
         std::fs::write(&path, &bytes).unwrap();
         let from_file = catch_unwind(AssertUnwindSafe(|| a2lfile::load(&path, None, false)));
